@@ -20,7 +20,7 @@ func init() { register(c11{}) }
 
 func (c11) ID() string { return "C11" }
 func (c11) Cases(t fw.Tier) int {
-	return tierN(t, 2500, 120000)
+	return tierN(t, 20000, 600000)
 }
 func (c11) Rule() string {
 	return "each case builds a group of 8 related JSON values (a seed value, equal-by-construction copies, near misses that differ at one leaf: " +
